@@ -105,6 +105,9 @@ type Prover struct {
 	// Canon maps a load to the representative of its class of loads that
 	// provably yield the same value (see StableLoads).
 	Canon map[ssa.Value]ssa.Value
+	// Equiv, when set, returns pairs of values known to be equal once the relation holds (for instance
+	// the result of a guarded wrapper call and the call it forwards to when its result is not zero).
+	Equiv func(rel Rel) [][2]ssa.Value
 	depth int
 	Trace []string
 }
@@ -622,6 +625,12 @@ func (pv *Prover) facts(b *ssa.BasicBlock) *factSet {
 	for i := len(guards) - 1; i >= 0; i-- {
 		if rel, ok := AsRel(guards[i]); ok {
 			pv.relFacts(fs, rel)
+			if pv.Equiv != nil {
+				for _, pr := range pv.Equiv(rel) {
+					d := pv.Form(pr[0]).Add(pv.Form(pr[1]), -1)
+					fs.cons = append(fs.cons, d, d.Scale(-1))
+				}
+			}
 		}
 	}
 	return fs
